@@ -133,3 +133,47 @@ Example c18_example :
   /\ string_runes s = 7%nat
   /\ cell_height (new_cell (string_cells seg rw) (fun _ => mkObj None None None None None [] None) (IString s)) = 4%Z.
 Proof. vm_compute. repeat split; reflexivity. Qed.
+
+(* TIED TO THE SOURCE TEXT.  Generated/LengthSrc.v is written by tools/go2coq from
+   length/length.go (StringBytes, StringRunes, StringCells, Lines and the three
+   LongestLine functions; a shallow translation over Base/GoSem.v) and regenerated
+   from the repository under test on every run (check.py SOURCE_TIES).
+   strings.Split on "\n" and utf8.RuneCountInString are the prelude's
+   strings_Split1 / rune_count; runewidth.StringWidth is a parameter W.  For every
+   string and every W - no hypothesis - the translated source IS the model: no
+   panic (ss[len(ss)-1] is in range: Split never returns an empty list), the same
+   lines, the same numbers. *)
+From Tab Require Import Base.GoSem Generated.LengthSrc Proofs.LengthSrcTie.
+
+Theorem c18_source_is_model :
+  (forall s, src_Lines s = Done (lines s))
+  /\ (forall s, src_StringBytes s = Ok (Z.of_nat (string_bytes s)))
+  /\ (forall s, src_StringRunes s = Ok (Z.of_nat (string_runes s)))
+  /\ (forall (W : bytes -> nat) s, src_StringCells (fun x => Z.of_nat (W x)) s = Ok (Z.of_nat (W s)))
+  /\ (forall s, src_LongestLineBytes s = res_Z (longest_line_bytes s))
+  /\ (forall s, src_LongestLineRunes s = res_Z (longest_line_runes s))
+  /\ (forall (W : bytes -> nat) s, src_LongestLineCells (fun x => Z.of_nat (W x)) s = res_Z (longest_line_with W s))
+  /\ (forall seg rw s, src_LongestLineCells (fun x => Z.of_nat (string_cells seg rw x)) s = res_Z (longest_line_cells seg rw s)).
+Proof. exact length_source_is_model. Qed.
+Print Assumptions c18_source_is_model.
+
+(* c18_lines_total / c18_lines_spec / c18_lines_lossless for what the TRANSLATED
+   SOURCE of Lines returns *)
+Theorem c18_source_lines_lossless : forall s, exists ls,
+  src_Lines s = Ok ls
+  /\ s = join [LF] ls ++ (if ends_with_lf s then [LF] else [])
+  /\ Forall (fun l => ~ In LF l) ls
+  /\ ls = spec_lines s.
+Proof. exact src_Lines_lossless. Qed.
+Print Assumptions c18_source_lines_lossless.
+
+(* c18_longest_three for the translated sources: each returns the maximum of its
+   measure over exactly the lines the translated Lines returns, for every width
+   measure W *)
+Theorem c18_source_longest : forall (W : bytes -> nat) s, exists ls,
+  src_Lines s = Ok ls
+  /\ src_LongestLineBytes s = Ok (Z.of_nat (list_max (map string_bytes ls)))
+  /\ src_LongestLineRunes s = Ok (Z.of_nat (list_max (map string_runes ls)))
+  /\ src_LongestLineCells (fun x => Z.of_nat (W x)) s = Ok (Z.of_nat (list_max (map W ls))).
+Proof. exact src_longest_three. Qed.
+Print Assumptions c18_source_longest.
